@@ -138,3 +138,32 @@ def rule_flatten_each(db: ProgramDB) -> List[Instance]:
                     ("the inner value is re-packed (" + unparse(bad[0])[:40] + "): multiplicity/order can change" if bad else
                      "a non-iterable inner value is not treated as a single element"), line=loop.lineno))
     return out
+
+
+def rule_flatten_keyed(db: ProgramDB) -> List[Instance]:
+    """A mapping that yields several values for one value of its child (one-to-many) distinguishes rows like a variable
+    does, so it must be part of `_all_variable_instances_` - the set from which cache keys and duplicate-suppression keys
+    are computed.  Otherwise all its values under one parent binding share one cache entry / count as duplicates."""
+    out = []
+    dm = db.cls("DomainMapping")
+    for c in sorted(dm.all_subclasses(include_self=False), key=lambda k: k.name):
+        m = c.lookup("_apply_mapping_")
+        if m is None or m.cls is dm:
+            continue
+        loops = [l for l in own_nodes(m.node) if isinstance(l, (ast.For, ast.While)) and
+                 any(isinstance(x, (ast.Yield, ast.YieldFrom)) for x in ast.walk(l))]
+        multi = bool(loops) or any(isinstance(x, ast.YieldFrom) for x in own_nodes(m.node))
+        if not multi:
+            out.append(inst("FLATTEN-KEYED", INFO, c, f"{c.name}", "one value per child value: identified by its variables"))
+            continue
+        v = c.lookup("_all_variable_instances_")
+        includes_self = v is not None and any(isinstance(x, ast.Name) and x.id == "self" and not isinstance(db.parent(x), ast.Attribute)
+                                              for r in own_nodes(v.node) if isinstance(r, ast.Return) for x in ast.walk(r))
+        out.append(inst("FLATTEN-KEYED", HOLDS if includes_self else VIOLATION, c, f"{c.name}._all_variable_instances_",
+                        f"{c.name} yields several values per child value and counts itself among the variables of the expressions "
+                        f"that use it" if includes_self else
+                        f"{c.name} yields several values per child value but is not part of `_all_variable_instances_` "
+                        f"(effective implementation: {v.short if v else '?'}): result caches and duplicate suppression key its "
+                        f"rows on the parent only, so with caching enabled a condition on the element is answered for all "
+                        f"elements of a parent by the first one's result"))
+    return out
